@@ -38,6 +38,12 @@ func (c *Ctx) Mod(dir string) *Module {
 	}
 	c.mu.Unlock()
 	m, err := LoadModule(dir, c.Arch, c.Overlay)
+	for attempt := 0; err != nil && attempt < 2; attempt++ {
+		// the loader shells out to the go command; under heavy parallel load that can fail transiently (seen once with three
+		// thorough runs side by side). A deterministic failure (type error in the tree) fails again and is reported.
+		time.Sleep(time.Duration(attempt+1) * 2 * time.Second)
+		m, err = LoadModule(dir, c.Arch, c.Overlay)
+	}
 	if err != nil {
 		c.add("infra", VUndecided, "load|"+dir, "-", err.Error())
 		m = nil
